@@ -12,9 +12,9 @@ import (
 // F(x) = F'(x) u U{ F(y) : x R* y } for every relation R.
 
 type digraphCase struct {
-	N    int   `json:"n"`
-	Bits int   `json:"bits"` // adjacency matrix, row major
-	Base int   `json:"base"` // which base-set family
+	N    int `json:"n"`
+	Bits int `json:"bits"` // adjacency matrix, row major
+	Base int `json:"base"` // which base-set family
 }
 
 // base sets are built by append so that they carry realistic spare capacity
